@@ -40,6 +40,7 @@ def requests():
         Request(PDFS, fn=["stir::ProjDataFromStream::.*", "stir::detail::checked_seek.*"], enum=["stir::ProjDataFromStream::StorageOrder"]),
         Request(PDIM, fn=["stir::ProjDataInMemory::.*", "stir::detail::copy_data_.*"]),
         Request(PDFS, fn=["stir::ProjDataFromStream::.*"], config="openmp"),
+        Request("src/IO/interfile.cxx", fn=["stir::write_basic_interfile_PDFS_header"]),
     ]
 
 
@@ -430,6 +431,40 @@ def rule_e_results_used(ctx, units):
                     ctx.ob("C02.e-io-result-used", fn.qn + "(" + fn.sig + ")", c.callee.split("::")[-1] + "-result", used, c.where(), "result used in %s" % (p.k if p is not None else "?"))
 
 
+PER_SEGMENT_ACCESSORS = ("get_num_axial_poss", "get_min_ring_difference", "get_max_ring_difference", "get_min_axial_pos_num", "get_max_axial_pos_num")
+
+
+def rule_g_header_segment_order(ctx, fn):
+    """write_basic_interfile_PDFS_header: the reader pairs the per-segment lists (axial sizes, min/max ring difference)
+    by position with the segment order of the data in the stream, so every per-segment value written must be taken for
+    the segments in get_segment_sequence_in_stream() order."""
+    defs = LocalDefs(fn)
+    n = 0
+    for c in fn.calls():
+        short = (c.callee or "").split("::")[-1]
+        if short not in PER_SEGMENT_ACCESSORS or not c.call_args():
+            continue
+        # only values that are streamed into the header
+        streamed = any(a.k == "CXXOperatorCallExpr" and a.op == "<<" for a in c.ancestors())
+        if not streamed:
+            continue
+        arg = c.call_args()[0]
+        if arg.strip().k == "IntegerLiteral":
+            continue  # a scalar key of a single-segment format (e.g. SPECT `matrix size [2]` for segment 0), not a per-segment list
+        sl = data_slice(fn, [arg], defs)
+        ok = any(m.is_call() and (m.callee or "").endswith("get_segment_sequence_in_stream") for m in sl)
+        ctx.ob(
+            "C02.g-header-segment-order",
+            fn.qn,
+            "%s(%s)@%d" % (short, key(arg, True), n),
+            ok,
+            c.where(),
+            "segment argument is drawn from get_segment_sequence_in_stream()" if ok else "per-segment header value written for segment `%s`, which does not come from the stream's segment sequence" % key(arg, True),
+        )
+        n += 1
+    return n
+
+
 def run(ctx):
     ctx.explanation = (
         "Decides structural necessary conditions of C02 from the source: (a) all five bin coordinates are range-checked "
@@ -448,7 +483,7 @@ def run(ctx):
     ]
     reqs = requests()
     ctx.ex.prefetch(reqs)
-    pdfs, pdim, pdfs_omp = (ctx.ex.get(r) for r in reqs)
+    pdfs, pdim, pdfs_omp, ifile = (ctx.ex.get(r) for r in reqs)
     if pdfs is None or pdim is None:
         return
     byname = {}
@@ -471,6 +506,12 @@ def run(ctx):
     rule_c_single_address_map(ctx, pdfs, pdim)
     rule_d_flush(ctx, pdfs)
     rule_e_results_used(ctx, [pdfs, pdim])
+    hw = [f for f in (ifile.functions if ifile else []) if f.body is not None and "ProjDataFromStream" in f.sig]
+    if not hw:
+        ctx.fail_broken("anchor write_basic_interfile_PDFS_header(.., const ProjDataFromStream&) not found")
+    else:
+        rule_g_header_segment_order(ctx, hw[0])
+    ctx.require_count("C02.g-header-segment-order", 12)
     ctx.require_count("C02.a-bounds", 20)
     ctx.require_count("C02.b-layout", 20)
     ctx.require_count("C02.c-one-address-map", 20)
